@@ -165,6 +165,10 @@ def run(ctx, rep):
     from .C17 import valid_size_rules
     valid_size_rules(P, rep, 'R-C01-9')
     used_parity_rule(P, rep, 'R-C01-10')
+    from .C17 import parity_read_valid_rule
+    parity_read_valid_rule(P, rep, 'R-C01-11')
+    from .C17 import create_accepts_damaged_size_rule
+    create_accepts_damaged_size_rule(P, rep, 'R-C01-12')
 
 
 def used_parity_rule(P, rep, rid):
